@@ -7,15 +7,25 @@ Init == l = 1
 RECURSIVE DiluteBN(_, _, _)
 DiluteBN(j, spacing, i) == IF j = 0 THEN "0x0"
                            ELSE BNAdd(IF j % 2 = 1 THEN BNPow2(i * spacing) ELSE "0x0", DiluteBN(j \div 2, spacing, i + 1))
-UReal(j, spacing) == FSub(FOf(DiluteBN(j, spacing, 0)), FOf(DiluteBN(j - 1, spacing, 0)))
+\* the Java primitive BNDilute is the same function (checked here on a sample at start-up); it keeps the 2^16-step recurrence affordable
+ASSUME \A j \in 0..70, s \in {1, 2, 3, 5, 16, 40} : BNDilute(j, s) = DiluteBN(j, s, 0)
+UReal(j, spacing) == FSub(FOf(BNDilute(j, spacing)), FOf(BNDilute(j - 1, spacing)))
+\* The defining recurrence r_(j+1) = r_j * (1 + z*u_j) + alpha * u_j^2, evaluated in blocks of 256 steps: TLC evaluates recursion on
+\* the Java stack and passes arguments lazily, and a single recursion 2^16 deep is quadratic (garbage collection scans the stack);
+\* TLCEval forces the accumulator at every step.
+RECURSIVE DilBlock(_, _, _, _, _, _)
+DilBlock(r, j, jend, spacing, z, alpha) ==
+    IF j = jend THEN r
+    ELSE LET u == TLCEval(UReal(j, spacing)) IN
+         DilBlock(TLCEval(FAdd(FMul(r, FAdd("0x1", FMul(z, u))), FMul(alpha, FMul(u, u)))), j + 1, jend, spacing, z, alpha)
 RECURSIVE DilutedFrom(_, _, _, _, _, _)
 DilutedFrom(r, j, last, spacing, z, alpha) ==
     IF j = last THEN r
-    ELSE LET u == UReal(j, spacing) IN
-         DilutedFrom(FAdd(FMul(r, FAdd("0x1", FMul(z, u))), FMul(alpha, FMul(u, u))), j + 1, last, spacing, z, alpha)
+    ELSE LET e == IF j + 256 < last THEN j + 256 ELSE last IN
+         DilutedFrom(TLCEval(DilBlock(r, j, e, spacing, z, alpha)), e, last, spacing, z, alpha)
 DilutedEv ==
     /\ Is("diluted") /\ Consume
-    /\ Ev.out = DilutedFrom("0x1", 1, 2^Ev.n_bits, Ev.spacing, Ev.z, Ev.alpha)
+    /\ Ev.out = DilutedFrom("0x1", 1, TLCEval(2^Ev.n_bits), TLCEval(Ev.spacing), TLCEval(Ev.z), TLCEval(Ev.alpha))
 
 RECURSIVE CellProd(_, _, _, _)
 CellProd(cells, i, z, alpha) ==
